@@ -54,10 +54,16 @@ GetClause(e) ==
          IN IF m # "ok" THEN m
             ELSE IF cfg.ident = 1 /\ FrameLevel(cfg) THEN AlteredClause(cfg, labels, cache[e.i].src, e.pts)
             ELSE "ok"
+FullMember == [f \in 1..Len(labels) |-> Idx(labels[f])]
 ObsClause(e) ==
     IF e.raised # "" THEN "raised"
     ELSE IF e.lab # 0 THEN "labels_changed_by_" \o e.op
-    ELSE IF e.mem # member THEN "instance_list_differs_after_" \o e.op
+    \* the frames' instance lists: the code as pinned filters them IN PLACE to the user instances while building
+    \* (`member`); leaving the Labels object untouched (FullMember) conforms to the property just as well.  What
+    \* no later read or call may do is change them again.
+    ELSE IF e.op = "build" /\ (Len(e.mem) # Len(labels) \/ \E f \in 1..Len(labels) : e.mem[f] # member[f] /\ e.mem[f] # FullMember[f])
+         THEN "instance_list_differs_after_build"
+    ELSE IF e.op # "build" /\ e.mem # Ev[1].mem THEN "instance_list_changed_after_" \o e.op
     ELSE IF e.op = "build" THEN BuildClause(e)
     ELSE IF e.op = "get" THEN GetClause(e)
     ELSE IF Len(e.cache) # Len(cache) \/ (\E k \in 1..Len(e.cache) : e.cache[k] # 0) THEN "cache_changed_by_call"
